@@ -1,4 +1,5 @@
 import Heathcliff.Proofs.GenEvalCt
+import Heathcliff.Proofs.GenEval
 
 /-!
   Translator phase 4g: `Evaluator::translate_inplace` (generated skeleton over the flat buffers, Gen/EvalCtFns.lean) = `ctTranslate` /
@@ -371,5 +372,234 @@ theorem gt_translate_inplace_top_eq (d1 d2 : List Nat) (s1 s2 cf : Nat) (sub v1 
       GenC.ct_translate_inplace_eq d1 s1 cf d2 s2 cf sub v1 v2 sp nd ss mods t n := by
   unfold GenC.ct_translate_inplace GenC.ct_translate_inplace_eq
   simp only [ne_eq, not_true_eq_false, if_false]
+
+/-! ### unequal correction factors: the balancing branch -/
+
+
+theorem gt_flatten_getD (size n : Nat) (p : RnsPoly) (j i : Nat) (hj : j < size) (hi : i < n) :
+    (flattenRns size n p).getD (j * n + i) 0 = (p.getD j #[]).getD i 0 := by
+  unfold flattenRns
+  have hx : j * n + i < size * n := by
+    calc j * n + i < j * n + n := by omega
+      _ = (j + 1) * n := by rw [Nat.succ_mul]
+      _ ≤ size * n := Nat.mul_le_mul_right _ hj
+  rw [gz_getD_map_range _ _ _ _ hx]
+  have h1 : (j * n + i) / n = j := by
+    rw [Nat.mul_comm, Nat.mul_add_div (by omega), Nat.div_eq_of_lt hi, Nat.add_zero]
+  have h2 : (j * n + i) % n = i := by
+    rw [Nat.mul_comm, Nat.mul_add_mod, Nat.mod_eq_of_lt hi]
+  rw [h1, h2]
+
+theorem gt_unflatten_flatten (size n : Nat) (p : RnsPoly) (hp : p.size = size) (hc : ∀ j, j < size → (p.getD j #[]).size = n) :
+    unflattenRns size n (flattenRns size n p) = p := by
+  unfold unflattenRns
+  apply Array.ext
+  · simp [hp]
+  · intro j h1 h2
+    have hj : j < size := by simpa using h1
+    have hcj := hc j hj
+    have hpj : p.getD j #[] = p[j] := by simp [Array.getD, h2]
+    rw [hpj] at hcj
+    simp only [List.getElem_toArray, List.getElem_map, List.getElem_range]
+    apply Array.ext
+    · simp [hcj]
+    · intro i g1 g2
+      have hi : i < n := by simpa using g1
+      simp only [List.getElem_toArray, List.getElem_map, List.getElem_range]
+      rw [gt_flatten_getD size n p j i hj hi, hpj]
+      simp [Array.getD, g2]
+theorem gt_blk_flatten (D : Nat) : ∀ (bs : List (List Nat)) (i : Nat), (∀ b, b ∈ bs → b.length = D) → i < bs.length →
+    gp_blk D bs.flatten i = bs.getD i [] := by
+  intro bs
+  induction bs with
+  | nil => intro i _ h; simp at h
+  | cons b t ih =>
+    intro i hall hi
+    have hb : b.length = D := hall b List.mem_cons_self
+    cases i with
+    | zero =>
+      unfold gp_blk
+      simp only [Nat.zero_mul, List.drop_zero, List.flatten_cons, List.getD_cons_zero]
+      rw [← hb, List.take_left]
+    | succ j =>
+      have := ih j (fun b hb => hall b (List.mem_cons_of_mem _ hb)) (by simpa using hi)
+      rw [List.getD_cons_succ, ← this]
+      unfold gp_blk
+      rw [List.flatten_cons, Nat.succ_mul, Nat.add_comm (j * D) D, ← List.drop_drop, ← hb, List.drop_left]
+
+theorem gt_mapM_getD {α β : Type} (f : α → R β) (da : α) (db : β) : ∀ (l : List α) (vs : List β), l.mapM f = .ok vs →
+    ∀ i, i < l.length → f (l.getD i da) = .ok (vs.getD i db) := by
+  intro l
+  induction l with
+  | nil => intro vs _ i hi; simp at hi
+  | cons x t ih =>
+    intro vs h i hi
+    rw [List.mapM_cons] at h
+    cases hx : f x with
+    | error e => rw [hx] at h; cases h
+    | ok y =>
+      rw [hx] at h
+      cases ht : t.mapM f with
+      | error e => rw [ht] at h; cases h
+      | ok ys =>
+        rw [ht] at h
+        cases h
+        cases i with
+        | zero => simpa using hx
+        | succ j => simpa using ih ys ht j (by simpa using hi)
+
+/-- shape of a `compsMap` result: one component per modulus, each as long as the input's -/
+theorem gt_compsMap_shape (ms : Array Modulus) (a : RnsPoly) (g : Nat → Modulus → R Nat) (o : RnsPoly) (h : compsMap ms a g = .ok o) :
+    o.size = ms.size ∧ ∀ j, j < ms.size → (o.getD j #[]).size = (a.getD j #[]).size := by
+  unfold compsMap at h
+  rw [gp_foldl_pushG] at h
+  cases hm : (List.range ms.size).mapM (fun i => mapM' (a.getD i #[]) (fun x => g x (ms.getD i default))) with
+  | error e => rw [hm] at h; cases h
+  | ok vs =>
+    rw [hm] at h
+    have ho : o = vs.toArray := by
+      simp only [bind, Except.bind, pure, Except.pure] at h
+      cases h; simp
+    have hl : vs.length = ms.size := by rw [gp_mapM_lengthG _ _ _ hm, List.length_range]
+    refine ⟨by rw [ho]; simpa using hl, ?_⟩
+    intro j hj
+    have := gt_mapM_getD _ 0 #[] _ _ hm j (by simpa using hj)
+    have hr : (List.range ms.size).getD j 0 = j := by simp [List.getD, hj]
+    rw [hr] at this
+    rw [ho, gz_toArray_getD]
+    exact gp_mapM'_size _ _ _ this
+
+/-- shape of the polynomials the model's scaling step produces from a block of the flat buffer -/
+theorem gt_scaled_shape (l : Level) (d : List Nat) (s i e : Nat) (hd : d.length = s * (l.size * l.n)) (hi : i < s) (o : RnsPoly)
+    (h : compsMap l.qs (gt_U l d i) (fun x m => mulMod x e m) = .ok o) :
+    o.size = l.size ∧ ∀ j, j < l.size → (o.getD j #[]).size = l.n := by
+  obtain ⟨h1, h2⟩ := gt_compsMap_shape _ _ _ _ h
+  refine ⟨h1, ?_⟩
+  intro j hj
+  rw [h2 j hj]
+  have hb : i * (l.size * l.n) + l.size * l.n ≤ d.length := by rw [hd]; exact gp_blk_bound hi
+  unfold gt_U
+  rw [gp_unflatten_blk l.size l.n _ j hj (by rw [gp_blk_length _ _ _ hb]; exact gp_blk_bound hj)]
+  simp only [List.size_toArray]
+  exact gp_blk_length _ _ _ (by rw [gp_blk_length _ _ _ hb]; exact gp_blk_bound hj)
+
+/-- re-reading the flattened list of well-shaped polynomials as a model ciphertext gives those polynomials back -/
+theorem gt_unflattenCt_flat (l : Level) (outs : List RnsPoly) (ntt : Bool) (f : Nat)
+    (hsh : ∀ o, o ∈ outs → o.size = l.size ∧ ∀ j, j < l.size → (o.getD j #[]).size = l.n) :
+    unflattenCt l outs.length ((outs.map (flattenRns l.size l.n)).flatten) ntt f = ⟨outs.toArray, ntt, f⟩ := by
+  unfold unflattenCt
+  congr 1
+  congr 1
+  apply List.ext_getElem
+  · simp
+  · intro i h1 h2
+    have hi : i < outs.length := by simpa using h1
+    simp only [List.getElem_map, List.getElem_range]
+    rw [gt_blk_flatten (l.size * l.n) (outs.map (flattenRns l.size l.n)) i (by
+      intro b hb
+      obtain ⟨o, _, rfl⟩ := List.mem_map.mp hb
+      exact gt_flattenRns_length _ _ _) (by simpa using hi)]
+    have hg : (outs.map (flattenRns l.size l.n)).getD i [] = flattenRns l.size l.n outs[i] := by
+      simp [List.getD, hi]
+    rw [hg]
+    have := hsh outs[i] (List.getElem_mem hi)
+    exact gt_unflatten_flatten _ _ _ this.1 this.2
+
+/-- the scaling step of the balancing branch: `multiply_scalar_inplace_ps` over ALL polynomials of an operand = the model's `scale` -/
+theorem gt_scale_step (l : Level) (d : List Nat) (s e : Nat) (hd : d.length = s * (l.size * l.n)) (hpl : l.n * l.size < B64) (hB : d.length < B64) :
+    GenP.poly_multiply_scalar_inplace_ps d e s l.n l.qs.toList =
+      (do let outs ← (List.range s).mapM (fun i => compsMap l.qs (gt_U l d i) (fun x m => mulMod x e m))
+          pure ((outs.map (flattenRns l.size l.n)).flatten)) := by
+  rw [gp_poly_multiply_scalar_inplace_ps_model l d e s hpl (by omega) hB, ← hd, List.drop_length]
+  simp only [List.append_nil, gt_U]
+
+/-- the model's `scale` of a ciphertext read off a flat buffer, in terms of the blocks -/
+theorem gt_ctBalanced_eq (l : Level) (d1 d2 : List Nat) (s1 s2 : Nat) (ntt : Bool) (cf1 cf2 : Nat) (sub : Bool) (hcf : cf1 ≠ cf2) :
+    ctTranslateBalanced l (unflattenCt l s1 d1 ntt cf1) (unflattenCt l s2 d2 ntt cf2) sub =
+      (do let r ← balanceCorrectionFactors cf1 cf2 l.t
+          let o1 ← (List.range s1).mapM (fun i => compsMap l.qs (gt_U l d1 i) (fun x m => mulMod x r.2.1 m))
+          let o2 ← (List.range s2).mapM (fun i => compsMap l.qs (gt_U l d2 i) (fun x m => mulMod x r.2.2 m))
+          ctTranslate l ⟨o1.toArray, ntt, r.1⟩ ⟨o2.toArray, ntt, r.1⟩ sub) := by
+  unfold ctTranslateBalanced
+  have hp1 : (unflattenCt l s1 d1 ntt cf1).polys.toList = (List.range s1).map (gt_U l d1) := by simp [unflattenCt, gt_U]
+  have hp2 : (unflattenCt l s2 d2 ntt cf2).polys.toList = (List.range s2).map (gt_U l d2) := by simp [unflattenCt, gt_U]
+  have hc1 : (unflattenCt l s1 d1 ntt cf1).cf = cf1 := rfl
+  have hc2 : (unflattenCt l s2 d2 ntt cf2).cf = cf2 := rfl
+  rw [hc1, hc2, if_neg hcf]
+  cases balanceCorrectionFactors cf1 cf2 l.t with
+  | error e => rfl
+  | ok r =>
+    obtain ⟨f, e1, e2⟩ := r
+    simp only [bind, Except.bind, hp1, hp2, gc_mapM_comp]
+    cases (List.range s1).mapM (fun i => compsMap l.qs (gt_U l d1 i) (fun x m => mulMod x e1 m)) with
+    | error e => rfl
+    | ok o1 =>
+      simp only [pure, Except.pure]
+      cases (List.range s2).mapM (fun i => compsMap l.qs (gt_U l d2 i) (fun x m => mulMod x e2 m)) with
+      | error e => rfl
+      | ok o2 => rfl
+
+theorem gt_ctTranslate_cf (l : Level) (a b : Ct) (sub : Bool) (c : Ct) (h : ctTranslate l a b sub = .ok c) : c.cf = a.cf := by
+  unfold ctTranslate at h
+  split at h
+  · cases h
+  · split at h
+    · cases h
+    · simp only [bind, Except.bind] at h
+      split at h
+      · cases h
+      · cases h; rfl
+
+/-- **`Evaluator::translate_inplace` with UNEQUAL correction factors (BGV) = `ctTranslateBalanced`**, all size pairs.  The top-level
+    generated function balances the factors (`balance_correction_factors`, tied in Proofs/GenEval.lean), scales ALL polynomials of both
+    operands (`multiply_scalar_inplace_ps` with each operand's OWN size), sets the common factor and runs the equal-factor routine; the
+    result is the flattened model result, the new size the maximum, the new factor the model's.
+    Hypotheses: those of `gt_translate_inplace_eq_general` for both buffers, and those of the balance tie (`l.t.WF`: 2 ≤ t < 2^61 with
+    its Barrett ratio; `cf1 < 2^63`, `cf2 < 2^64`). -/
+theorem gt_translate_inplace_balanced (l : Level) (d1 d2 : List Nat) (s1 s2 : Nat) (ntt : Bool) (cf1 cf2 : Nat) (sub : Bool)
+    (hcf : cf1 ≠ cf2) (ht : l.t.WF) (hc1 : cf1 < 2^63) (hc2 : cf2 < 2^64)
+    (hs : max s1 s2 = 0 ∨ (2 ≤ max s1 s2 ∧ max s1 s2 ≤ 16)) (hl1 : 1 ≤ l.size)
+    (h1 : d1.length = s1 * (l.size * l.n)) (h2 : d2.length = s2 * (l.size * l.n)) (hpl : l.n * l.size < B64)
+    (hB : max s1 s2 * (l.size * l.n) < B64) :
+    GenC.ct_translate_inplace d1 s1 cf1 d2 s2 cf2 sub true true true false true l.qs.toList l.t l.n =
+      Except.map (fun c => (flattenCt l c, max s1 s2, c.cf))
+        (ctTranslateBalanced l (unflattenCt l s1 d1 ntt cf1) (unflattenCt l s2 d2 ntt cf2) sub) := by
+  have hB1 : d1.length < B64 := by
+    rw [h1]; exact Nat.lt_of_le_of_lt (Nat.mul_le_mul_right _ (Nat.le_max_left s1 s2)) hB
+  have hB2 : d2.length < B64 := by
+    rw [h2]; exact Nat.lt_of_le_of_lt (Nat.mul_le_mul_right _ (Nat.le_max_right s1 s2)) hB
+  rw [gc_translate_inplace_balance_partial d1 d2 s1 s2 cf1 cf2 sub _ _ _ hcf, gy_balance_correction_factors_eq ht cf1 cf2 hc1 hc2,
+    gt_ctBalanced_eq l d1 d2 s1 s2 ntt cf1 cf2 sub hcf]
+  cases balanceCorrectionFactors cf1 cf2 l.t with
+  | error e => rfl
+  | ok r =>
+    obtain ⟨f, e1, e2⟩ := r
+    simp only [bind, Except.bind]
+    rw [gt_scale_step l d1 s1 e1 h1 hpl hB1, gt_scale_step l d2 s2 e2 h2 hpl hB2]
+    cases hm1 : (List.range s1).mapM (fun i => compsMap l.qs (gt_U l d1 i) (fun x m => mulMod x e1 m)) with
+    | error e => rfl
+    | ok o1 =>
+      simp only [bind, Except.bind, pure, Except.pure]
+      cases hm2 : (List.range s2).mapM (fun i => compsMap l.qs (gt_U l d2 i) (fun x m => mulMod x e2 m)) with
+      | error e => rfl
+      | ok o2 =>
+        simp only []
+        have hl1' : o1.length = s1 := by rw [gp_mapM_lengthG _ _ _ hm1, List.length_range]
+        have hl2' : o2.length = s2 := by rw [gp_mapM_lengthG _ _ _ hm2, List.length_range]
+        have hsh1 : ∀ o, o ∈ o1 → o.size = l.size ∧ ∀ j, j < l.size → (o.getD j #[]).size = l.n :=
+          gp_mapM_all _ _ _ o1 hm1 (fun i o hi ho => gt_scaled_shape l d1 s1 i e1 h1 (List.mem_range.mp hi) o ho)
+        have hsh2 : ∀ o, o ∈ o2 → o.size = l.size ∧ ∀ j, j < l.size → (o.getD j #[]).size = l.n :=
+          gp_mapM_all _ _ _ o2 hm2 (fun i o hi ho => gt_scaled_shape l d2 s2 i e2 h2 (List.mem_range.mp hi) o ho)
+        have hu1 := gt_unflattenCt_flat l o1 ntt f hsh1
+        have hu2 := gt_unflattenCt_flat l o2 ntt f hsh2
+        rw [hl1'] at hu1
+        rw [hl2'] at hu2
+        rw [gt_translate_inplace_eq_general l _ _ s1 s2 ntt f sub l.t hs hl1 (by rw [gt_flatten_length, hl1']) (by rw [gt_flatten_length, hl2']) hpl hB,
+          hu1, hu2]
+        cases hct : ctTranslate l ⟨o1.toArray, ntt, f⟩ ⟨o2.toArray, ntt, f⟩ sub with
+        | error e => rfl
+        | ok c =>
+          have hcf' : c.cf = f := gt_ctTranslate_cf l _ _ sub c hct
+          simp only [Except.map, hcf']
 
 end HC
